@@ -7,6 +7,10 @@ TECH = "bounded symbolic execution of the real code's go/ssa form, every branch/
 BASE = "cd /repo && go test -vet=off -count=1 -timeout 25m ./..."
 
 CLAIMED = {
+ "C16": dict(
+   text="(1) setPayloadLength on a masked frame for EVERY length 0..2^40 (symbolic): shortest legal encoding, mask bit kept, declared length and payload offset right. (2) Sessions of 2/3 writes through Write, AsyncWrite, WriteFrame and AsyncWriteFrame with SetPayload, and WriteFrame of a caller-built frame WITHOUT payload, payload lengths {0,1,125,126,300} with symbolic bytes and mask keys, frames drawn from the pool model (fresh or any earlier released frame), transport accepting the bytes in <= 2/3 partial writes: after every write the bytes the transport has received parse (independent parser in the harness) into exactly the submitted frames in order, each with mask bit, FIN, the submitted opcode, shortest length encoding, payload that un-masks with the frame's key to the caller's bytes (every byte), and NOTHING trailing; nothing stays queued. (3) a message longer than a symbolic maximum is refused by Write and AsyncWrite without any transport write.",
+   note="Automatically generated Pong and Close frames are checked on the wire under C08. Lengths above 300 bytes are covered only by (1) (the masking loop is executed concretely per byte); server role is outside.",
+   ref="DESIGN.md §4 C16"),
  "C15": dict(
    text="Every conforming peer script of <= 2/3 frames (as in C06, small payloads) with ONE mutation at every position: a reserved bit set (each bit / every combination), a reserved opcode (3,7,11,15 / all ten), the mask bit, a control frame with FIN clear, a control frame with 126 payload bytes (16-bit form; 65536 bytes in the 64-bit form in the thorough tier), a continuation with no message in progress, a new data frame inside a fragmented message, a frame longer than the configured maximum; under every segmentation into <= 2/3 reads (splits 1..2/4 or the rest); read through the frame-level (blocking and async) and the message-level (blocking and async) APIs. Asserted: frames before the mutated one are fine; the read covering it returns an error (fragmentation rules: from the message-level API); no message containing it is delivered; after a framing violation State()==StateClosedByUs, the last queued frame is a Close with status 1002 (unmasked with its own key), and Write/AsyncWrite/WriteFrame are refused without queuing anything; no panic. The decoder-level totality for arbitrary bytes is C07.",
    note="Not yet covered: message total above the maximum across fragments, caller buffer too small. A control frame using a non-minimal length encoding with <= 125 bytes is not a violation the property lists and is not asserted.",
